@@ -534,6 +534,39 @@ func checkRenderings(run *vk.Run) {
 			p := p
 			do("mask "+p, want, func(ctx context.Context) error { return gtb.InspectMask(ctx, e, &fmpb.FieldMask{Paths: []string{p}}) })
 		}
+		// several paths in one mask: value k is the value addressed by path k, in the order given, with
+		// repeated and nested paths rendered as often as they are named (values separated by a line feed)
+		if form == gtb.BytesHex {
+			for _, paths := range [][]string{{"digest", "cert"}, {"sev_snp.measurements[0x10]", "sev_snp.measurements[1]", "commit"}, {"digest", "digest"}, {"commit", "cert", "commit"}} {
+				var want []string
+				for _, p := range paths {
+					want = append(want, hex.EncodeToString(map[string][]byte{"cert": g.Cert, "digest": g.Digest, "sev_snp.measurements[1]": g.SevSnp.Measurements[1], "sev_snp.measurements[0x10]": g.SevSnp.Measurements[16], "commit": g.Commit}[p]))
+				}
+				w := &bw{}
+				ctx := gtb.WithInspect(context.Background(), &gtb.Inspect{Writer: w, Form: form})
+				mask := &fmpb.FieldMask{Paths: append([]string{}, paths...)}
+				var merr error
+				pan, _ := guarded(func() { merr = gtb.InspectMask(ctx, e, mask) })
+				if pan != "" || merr != nil || strings.Join(want, "\n") != w.String() {
+					run.Violation("inspect-not-exact:several-paths", fmt.Sprintf("inspect mask with paths %v does not render the value of path k as its k-th value (err=%v %s)", paths, merr, pan), map[string]any{"paths": paths})
+				}
+				if fmt.Sprint(mask.Paths) != fmt.Sprint(paths) {
+					run.Violation("inspect-mutates-mask", fmt.Sprintf("inspect mask rewrote the caller's mask %v to %v", paths, mask.Paths), nil)
+				}
+				run.Case("render:mask-several:"+strings.Join(paths, ","), true)
+			}
+			// a path that addresses an element the document does not carry is an error, not an empty rendering
+			for _, p := range []string{"sev_snp.measurements[8]", "tdx.measurements[99].mrtd", "tdx.measurements[99]"} {
+				w := &bw{}
+				ctx := gtb.WithInspect(context.Background(), &gtb.Inspect{Writer: w, Form: form})
+				var merr error
+				pan, _ := guarded(func() { merr = gtb.InspectMask(ctx, e, &fmpb.FieldMask{Paths: []string{p}}) })
+				if pan != "" || merr == nil {
+					run.Violation("inspect-absent-element", fmt.Sprintf("inspect mask --path %s addresses an element the document does not carry, yet it succeeds and writes %q (%s)", p, w.String(), pan), map[string]any{"path": p})
+				}
+				run.Case("render:mask-absent:"+p, true)
+			}
+		}
 	}
 	// the same renderings through the inspect sub-commands with the real file backend: a separate
 	// output file, the input file itself, and a symbolic link to it
